@@ -6,6 +6,7 @@ from engine.astutil import src, call_name, dotted, Guards, enclosing_map, names_
 from engine.linear import form, NotLinear, Lin, MinMax
 from engine.loader import AnalysisError
 from engine.switch import enumerate_paths, find_machine
+from engine.flow import Flow, _walk_no_nested
 from .ctxuse import print_sites, single_defs
 
 META = {
@@ -50,23 +51,45 @@ def run(repo, rep):
         sites = [(c, v, e) for c, v, ctxe, e in print_sites(f.node) if v is not None]
         if not sites:
             continue
-        g = Guards(f.node, descend_nested=True)
-        groups = {}
+        canon = _canoniser(f.node)
+        site_of = {}
         for c, v, e in sites:
-            groups.setdefault(src(v), []).append((c, e))
-        for val, cs in sorted(groups.items()):
+            site_of[id(c)] = (src(v), canon(v))
+        clashes = {}
+
+        def transfer(st, state, _site_of=site_of, _clashes=clashes):
+            cur = set(state)
+            if getattr(st, '_loop_target', False):
+                # a new iteration: elements of the iterated container are new sub-values
+                cur = {x for x in cur if not x[1].startswith('elem(')}
+                return [frozenset(cur)]
+            calls = [c for c in _walk_no_nested(st) if id(c) in _site_of]
+            calls.sort(key=lambda c: (c.lineno, c.col_offset))
+            for c in calls:
+                raw, cv = _site_of[id(c)]
+                for (r0, c0, ln0) in cur:
+                    if (r0 == raw or c0 == cv) and not isinstance(ast.parse(raw, mode='eval').body, ast.Constant):
+                        _clashes.setdefault(raw if r0 == raw else cv, set()).update({ln0, c.lineno})
+                cur.add((raw, cv, c.lineno))
+            return [frozenset(cur)]
+        fl = Flow(transfer, lambda st, s_: [])
+        try:
+            fl.run(f.node, frozenset())
+        except RecursionError:
+            pass
+        rep.count(fl.visited_stmts)
+        seen_sets = []
+        for val in sorted({r for r, _ in site_of.values()} | {c for _, c in site_of.values()}):
+            lines = clashes.get(val)
+            if lines and any(lines == s0 for s0 in seen_sets):
+                continue
+            if lines:
+                seen_sets.append(lines)
             n += 1
-            clash = None
-            for i in range(len(cs)):
-                for j in range(i + 1, len(cs)):
-                    if not _exclusive(g, cs[i][0], cs[j][0]):
-                        clash = (cs[i][0], cs[j][0])
-            if isinstance(ast.parse(val, mode='eval').body, ast.Constant):
-                clash = None
-            rep.check(clash is None, 'C12.a', '%s:prints-once:%s' % (f.qualname, val[:40]), f.where,
+            rep.check(not lines, 'C12.a', '%s:prints-once:%s' % (f.qualname, val[:40]), f.where,
                       'sub-value printed at most once per path',
                       '%s hands the sub-value %s to a recursive print entry twice on one path (lines %s): the work doubles at '
-                      'every nesting level' % (f.name, val, [c.lineno for c in clash] if clash else ''), nontrivial=True)
+                      'every nesting level' % (f.name, val, sorted(lines) if lines else ''), nontrivial=True)
     # normalize(): each child normalised once
     dt = repo.module('doctypes')
     for cname, ci in sorted(dt.classes.items()):
@@ -208,6 +231,35 @@ def run(repo, rep):
               'shortcut depends only on len(docs), increasing', 'the long-sequence shortcut is computed as %s' % detail, nontrivial=True)
     rep.floor('C12.d', n, 1)
     rep.count(len(cone))
+
+
+def _canoniser(fn):
+    """canonical description of a sub-value expression: aliases of 'an element of container X' agree"""
+    defs, loops = {}, {}
+    for s in ast.walk(fn):
+        if isinstance(s, ast.Assign) and len(s.targets) == 1 and isinstance(s.targets[0], ast.Name):
+            defs.setdefault(s.targets[0].id, []).append(s.value)
+        if isinstance(s, (ast.For, ast.comprehension)) and isinstance(s.target, ast.Name):
+            loops.setdefault(s.target.id, []).append(s.iter)
+
+    def base_iter(it, depth=0):
+        while isinstance(it, ast.Call) and call_name(it) in ('take', 'islice', 'enumerate', 'reversed', 'iter', 'list', 'tuple', 'sorted') and it.args:
+            it = it.args[1] if call_name(it) == 'take' and len(it.args) > 1 else it.args[0]
+        return canon(it, depth + 1)
+
+    def canon(e, depth=0):
+        if depth > 6:
+            return src(e)
+        if isinstance(e, ast.Name):
+            if len(loops.get(e.id, [])) == 1 and e.id not in defs:
+                return 'elem(%s)' % base_iter(loops[e.id][0], depth)
+            if len(defs.get(e.id, [])) == 1 and e.id not in loops and e.id not in names_in(defs[e.id][0]):
+                return canon(defs[e.id][0], depth + 1)
+            return e.id
+        if isinstance(e, ast.Subscript) and isinstance(e.slice, ast.Constant) and isinstance(e.slice.value, int):
+            return 'elem(%s)' % base_iter(e.value, depth)
+        return src(e)
+    return canon
 
 
 def _block_of(stmt, root):
